@@ -49,6 +49,7 @@ class Knobs:
     comment_in_heading: float = 0.5  # D11
     adjacent_links_diff_anchor: float = 0.0  # D20
     xml_comment_in_props: float = 0.05  # comment inside rPr/pPr/tcPr
+    empty_val: float = 0.04             # a run property whose w:val is the empty string
     cell_without_par: float = 0.0
     shared_part: float = 0.12  # one content part related twice (D18, fixed)
     textbox_in_link: float = 0.0  # D32: a text box anchored in a hyperlink's run
@@ -238,6 +239,15 @@ class Gen:
         self.r.shuffle(props)
         for x in props:
             pr.append(x)
+        if self.p(self.k.empty_val):
+            # gather_Pr treats an empty w:val like a missing one.  Only w:lang (ST_Lang, a plain string)
+            # may be empty in a schema-valid document: an empty w:val on vertAlign / sz / color ... is
+            # outside every enumeration or number type (and makes html_close raise IndexError on an
+            # empty style string), so it is not generated (C13 is about schema-valid packages)
+            for x in props:
+                if etree.QName(x).localname == "lang":
+                    x.set(self.q("w", "val"), "")
+                    self.feat("empty_val")
         if self.p(self.k.xml_comment_in_props):
             self.feat("xml_comment_in_props")
             pr.insert(self.r.randint(0, len(pr)), etree.Comment("x"))
